@@ -4,8 +4,9 @@ from .. import nodegen
 from ._nodecommon import *
 
 ID = "C08"
-LEAN_MODULES = ["VpnCloud.Proofs.C08"]
-THEOREMS = ["VpnCloud.Proofs.C08." + n for n in ("node_reject_pure", "unknown_sender_ignored")]
+LEAN_MODULES = ["VpnCloud.Proofs.C08", "VpnCloud.Proofs.C08Node"]
+THEOREMS = ["VpnCloud.Proofs.C08." + n for n in ("node_reject_pure", "unknown_sender_ignored")] + [
+            "VpnCloud.Proofs.C08Node.handleNet_no_panic", "VpnCloud.Proofs.C08Node.handleIface_no_panic", "VpnCloud.Proofs.C08Node.housekeep_no_panic", "VpnCloud.Proofs.C08Node.connect_no_panic", "VpnCloud.Proofs.C08Node.wf_reach", "VpnCloud.Proofs.C08Node.never_panics", "VpnCloud.Proofs.C08Node.never_panics'", "VpnCloud.Proofs.C08Node.own_seals_nonempty"]
 RULE = ("suite node: receiver states {unknown sender, pending as initiator, pending as responder, established with lingering handshake} x datagram lengths 0..80 (all in thorough) with structured "
         "first bytes (0xff marker, key ids, message types) x random bodies; truncations, length-field corruptions and bit flips of genuine handshake / data / node-info datagrams replayed from every "
         "party incl. the wrong one; random datagrams up to 65000 bytes; attack sequences interleaved with time and traffic; each under catch_unwind; "
@@ -20,5 +21,7 @@ DESIGN_REF = "DESIGN.md section 5, C08"
 def gen(tier, rng):
     thorough = tier == "thorough"
     yield nodegen.c08_script(rng, "states", thorough)
+    for f in (False, True):
+        yield nodegen.keyholder_script(rng, "keyholder-%d" % f, f)
     for i in range(40 if thorough else 6):
         yield nodegen.attack_script(rng, "attack-%d" % i, rng.choice([2, 3]), 12 if thorough else 8, rng.choice(["router", "switch"]), rng.choice(["tun", "tap"]))
